@@ -11,7 +11,7 @@ import rsx  # noqa: E402
 import vgen  # noqa: E402
 
 VERIF = os.path.dirname(os.path.dirname(os.path.abspath(__file__)))
-WORK = os.path.join(VERIF, '.work')
+WORK = os.path.join(os.environ.get('VERIF_OUT_DIR', VERIF), '.work')   # per-run when redirected (seeded-change runs)
 
 VERIFICATION_FAILURES = [
     ('postcondition not satisfied', 'ensures'),
